@@ -37,6 +37,8 @@ def node_at(t, v, tpath):
             if i >= len(v[1]):
                 return None
             t, v = t[1], v[1][i][1]
+        elif t[0] == "E" and i == "V":
+            t, v = dict(t[2])[v[1]], v[2]
         else:
             return None
     return t, v
@@ -54,6 +56,8 @@ def set_node(t, v, tpath, new):
         es = list(v[1])
         es[i] = (es[i][0], set_node(t[1], es[i][1], tpath[1:], new))
         return ("U", es)
+    if t[0] == "E" and i == "V":
+        return ("E", v[1], set_node(dict(t[2])[v[1]], v[2], tpath[1:], new))
     raise ValueError
 
 
@@ -77,24 +81,59 @@ def apply(o, path_ops, ints):
     tpath = []          # indices into the python value tree
     rpath = []          # role path (raw struct indices, '*' for elements)
     l = list(ints)
+    switched = False    # an enum variant switch (code 60) with a continuation has already been committed
 
     def cur():
         return node_at(o.t, o.v, tpath)
+
+    def after_switch(st):
+        """the result of the ops applied to the wrapper a variant setter returned: a failure leaves the switched value"""
+        if switched and st.kind == "err" and st.state == "unchanged":
+            st.state = "exact"
+        return st
 
     while True:
         ct, cv = cur()
         role = U.role_at(o.si, rpath)
         code = l[0]
+        if code == 60 and ct[0] == "E":
+            # set_<variant d>(DefaultInit): the value becomes the variant's default value; a data variant's setter returns
+            # the payload's wrapper, to which the remaining ints (if any) are applied
+            d = l[1]
+            l = l[2:]
+            vts = dict(ct[2])
+            if d not in vts:
+                return Step("skip")
+            nv = ("E", d, U.default_val(vts[d]))
+            e = o.request(len(U.encode(ct, nv)) - len(U.encode(ct, cv)))
+            if e:
+                return after_switch(Step("err", e))
+            o.v = set_node(o.t, o.v, tpath, nv)
+            if not l or vts[d] == ("S", []):
+                return Step("ok", extra=[])
+            switched = True
+            tpath.append("V")
+            rpath.append("V")
+            continue
         if code == 1:
             i = l[1]
             l = l[2:]
+            if ct[0] == "E":
+                # get(): descend into the payload if the live variant is the expected one
+                if cv[1] != i:
+                    return after_switch(Step("ok", extra=[-1]))
+                if dict(ct[2])[i] == ("S", []):
+                    return after_switch(Step("ok", extra=[-2]))
+                tpath.append("V")
+                rpath.append("V")
+                continue
             if ct[0] == "S":
                 tpath.append(i)
                 rpath.append(i)
                 continue
             if ct[0] == "U":
                 if i >= len(cv[1]):
-                    return Step("err", E_INDEX)
+                    return after_switch(Step("err", E_INDEX))
                 tpath.append(i)
                 rpath.append("*")
                 continue
@@ -106,13 +145,19 @@ def apply(o, path_ops, ints):
             keys = [U.unle(k) for k, _ in uv[1]]
             idx, found = lower_bound(keys, key)
             if not found:
-                return Step("ok", extra=[-1])
+                return after_switch(Step("ok", extra=[-1]))
             tpath += [0, idx]
             rpath += [0, "*"]
             continue
         break
 
-    ct, cv = cur()
+    return after_switch(_apply_leaf(o, tpath, rpath, l))
+
+
+def _apply_leaf(o, tpath, rpath, l):
+    """the operation `l` at the node the path leads to"""
+    code = l[0]
+    ct, cv = node_at(o.t, o.v, tpath)
     role = U.role_at(o.si, rpath)
 
     def commit(newv):
@@ -391,10 +436,13 @@ def enc_item(b):
 
 def gen_op(rng, o, resize_bias=True):
     """one mostly-valid op (path + leaf) for the oracle's current value; returns the int encoding"""
-    prefix = []
-    tpath = []
-    rpath = []
-    t, v = o.t, o.v
+    return _gen_at(rng, o, o.t, o.v, [], [])
+
+
+def _gen_at(rng, o, t, v, rpath, prefix):
+    """an op at or below the node (t, v) reached by the op codes `prefix` (role path `rpath`)"""
+    prefix = list(prefix)
+    rpath = list(rpath)
     while True:
         role = U.role_at(o.si, rpath)
         if role in ("map", "set", "string"):
@@ -426,9 +474,27 @@ def gen_op(rng, o, resize_bias=True):
             t, v = t[1], v[1][i][1]
             rpath.append("*")
             continue
+        if t[0] == "E":
+            d = v[1]
+            vts = dict(t[2])
+            if rng.chance(1, 16):
+                # get() expecting another variant than the live one (nothing happens), or the live unit variant
+                return prefix + [1, rng.choice([dd for dd, vt in t[2] if dd != d or vt == ("S", [])]), 13]
+            if vts[d] != ("S", []) and rng.chance(3, 5):
+                prefix += [1, d]
+                t, v = vts[d], v[2]
+                rpath.append("V")
+                continue
         break
     role = U.role_at(o.si, rpath)
     free = o.cap - o.size()
+    if t[0] == "E" and rng.chance(4, 5):
+        # variant switch with the default initializer: to every variant, the live one and unit variants included;
+        # for a data variant, half of the time followed by an op on the wrapper the setter returns
+        d, vt = rng.choice(t[2])
+        if vt != ("S", []) and rng.chance(1, 2):
+            return _gen_at(rng, o, vt, U.default_val(vt), rpath + ["V"], prefix + [60, d])
+        return prefix + [60, d]
     if rng.chance(1, 25):
         # whole-value replacement at this node
         nv = U.fix_roles_sub(o.si, t, U.gen_val(rng, t, 12), rng, rpath)
